@@ -64,9 +64,9 @@ claimed = {
  "C18": dict(level="exploration", technique="property-based testing (rapid), metamorphic: session [B0, K, K] typed vs session [B0, record K, replay once], emacs and vi macro styles",
    text="Generated key scripts K (printable, control, ESC-prefixed, CSI, quoted-insert, vi command keys) are typed twice in one session and recorded+replayed in another; final buffer, cursor, keymap and returned line must agree. Metamorphic oracle; cases where K itself is not deterministic are discarded and counted.",
    note=RIG_NOTE + " One known finding (lone ESC followed by a key forming an ESC-prefixed binding) excluded by construction and reported from a regress case.", ref="DESIGN.md §3 C18"),
- "C19": dict(level="exploration", technique="property-based testing (rapid) + bounded-exhaustive enumeration: Unescape(Escape(s)) round trip over all single runes 0x00-0xFF, all default bindings, significant triples and random sequences; native fuzzing in the thorough tier",
+ "C19": dict(level="exploration", technique="property-based testing (rapid) + bounded-exhaustive enumeration: Unescape(Escape(s)) round trip over all single runes 0x00-0xFF, all default bindings, significant triples and random sequences; round trip of the dump commands through a second shell configured from their output; native fuzzing in the thorough tier",
    text="Round-trip oracle Unescape(Escape(s)) == s and Unescape(EscapeMacro(s)) == s, exhaustive for length 1 over 0x00-0xFF, for every sequence bound in a default shell and for triples of notation-significant runes, random beyond; plus agreement of Unescape with an independent decoder of the documented notation.",
-   note="Codec part of the property (pure API). The dump-commands part is checked through the terminal rig once registered (see DESIGN.md).", ref="DESIGN.md §3 C19"),
+   note="Two checks: the codec (pure API, no child) and the dump commands (run with a numeric argument in a real session on the terminal rig; their output becomes the inputrc of a second shell whose binds and variables must equal the first one's).", ref="DESIGN.md §3 C19"),
 }
 
 not_applicable_reason = "check not yet registered in this commit (framework under construction; see DESIGN.md §3 for the planned check)"
